@@ -78,7 +78,7 @@ def call(it, objv, name, *args, **kwargs):
     return it.call_value(m, list(args), dict(kwargs), None)
 
 
-def run(program, thunk, max_paths=48, sticky=False, stubs=None):
+def run(program, thunk, max_paths=48, sticky=True, stubs=None):
     """explore() and return list of Path."""
     def conf(it):
         it.sticky = sticky
